@@ -137,9 +137,15 @@ def main():
     if broken and not real_viol and hasattr(mod, 'search'):
         # a proof obligation or the correspondence broke: look for a concrete failing input
         try:
-            mod.search(ctx)
+            budget = 240 if tier == 'quick' else 1500
+            ctx.deadline = time.time() + budget
+            common.with_alarm(lambda: mod.search(ctx), budget + 30)
+        except common.Timeout:
+            ctx.notes.append('failing-input search stopped after its time budget')
         except Exception:
             ctx.notes.append('search crashed: ' + traceback.format_exc()[-800:])
+        finally:
+            ctx.deadline = None
         real_viol = ctx.violations
     for f in kf:
         if f['status'] == 'known' and f['id'] in ctx.known_hits:
